@@ -21,7 +21,7 @@ def liftA {α : Type} : Except AErr α → Py α
   | .error .componentEndMissing => .error .componentEndMissing
 
 theorem AlarmTime_acknowledged_eq (a : AlarmTime) :
-    AlarmTime_acknowledged (awareO a.alarm.acknowledged) (awareO a.lastAck) = .ok (awareO a.acknowledged) := by
+    AlarmTime_acknowledged (alarm_acknowledged := awareO a.alarm.acknowledged) (last_ack := awareO a.lastAck) = .ok (awareO a.acknowledged) := by
   simp only [AlarmTime_acknowledged, AlarmTime.acknowledged, awareO]
   cases a.alarm.acknowledged <;> cases a.lastAck <;>
     simp [optMax, pure, Except.pure, bind, Except.bind, dtMax, dtGt]
@@ -33,7 +33,7 @@ theorem AlarmTime_acknowledged_eq (a : AlarmTime) :
     simp [h, this]
 
 theorem AlarmTime_trigger_eq (a : AlarmTime) :
-    AlarmTime_trigger (awareO a.snooze) a.trig toDatetime = liftA a.trigger := by
+    AlarmTime_trigger (snooze_until := awareO a.snooze) (trigger_raw := a.trig) (to_datetime := toDatetime) = liftA a.trigger := by
   simp only [AlarmTime_trigger, AlarmTime.trigger, awareO]
   cases a.snooze with
   | none => rfl
@@ -48,7 +48,8 @@ theorem AlarmTime_trigger_eq (a : AlarmTime) :
       cases hd : a.trig <;> simp [hd, toDatetime] at ht
 
 theorem AlarmTime_is_active_eq (a : AlarmTime) :
-    AlarmTime_is_active (awareO a.alarm.acknowledged) (awareO a.lastAck) (awareO a.snooze) a.trig toDatetime =
+    AlarmTime_is_active (alarm_acknowledged := awareO a.alarm.acknowledged) (last_ack := awareO a.lastAck) (snooze_until := awareO a.snooze)
+        (trigger_raw := a.trig) (to_datetime := toDatetime) =
       liftA a.isActive := by
   simp only [AlarmTime_is_active, AlarmTime_acknowledged_eq, AlarmTime_trigger_eq, AlarmTime.isActive, bind, Except.bind]
   cases hack : a.acknowledged with
@@ -87,7 +88,7 @@ theorem is_date_eq (t : Trig) : is_date t = t.isDate := by
 theorem is_datetime_eq (t : Trig) : is_datetime t = !t.isDate := rfl
 
 /-- `normalize_pytz` is the identity on the model's values (aware arithmetic is exact elapsed time there) -/
-theorem Alarms_add_eq (dt : Trig) (td : Int) : Alarms_add dt td toDatetime id = add dt td := by
+theorem Alarms_add_eq (dt : Trig) (td : Int) : Alarms_add (dt := dt) (td := td) (to_datetime := toDatetime) (normalize_pytz := id) = add dt td := by
   have hm : pyMod td 86400 = td % 86400 := by simp [pyMod]
   cases dt with
   | aware i => simp [Alarms_add, is_date_eq, Trig.isDate, add]
@@ -124,13 +125,13 @@ theorem pyRange_one_to (r : Int) :
     simp [e4, rangeUp]
 
 theorem Alarms_repeat_loop (first : Trig) (d : Int) (l : List Int) : ∀ acc : List Trig,
-    Alarms_repeat_loop1 first toDatetime id d acc l = .ok (acc ++ l.map (fun i => add first (d * i))) := by
+    Alarms_repeat_loop1 (to_datetime := toDatetime) (normalize_pytz := id) first d acc l = .ok (acc ++ l.map (fun i => add first (d * i))) := by
   induction l with
   | nil => intro acc; simp [Alarms_repeat_loop1, pure, Except.pure]
   | cons i rest ih => intro acc; simp only [Alarms_repeat_loop1, Alarms_add_eq]; rw [ih]; simp
 
 theorem Alarms_repeat_eq (first : Trig) (a : VAlarm) :
-    Alarms_repeat first a.rep a.duration toDatetime id = .ok (repeatTimes first a) := by
+    Alarms_repeat (first := first) (alarm_repeat := a.rep) (alarm_duration := a.duration) (to_datetime := toDatetime) (normalize_pytz := id) = .ok (repeatTimes first a) := by
   simp only [Alarms_repeat, repeatTimes, Truthy.truthy]
   by_cases hr : a.rep = 0
   · cases a.duration <;> simp [hr, pure, Except.pure, bind, Except.bind]
